@@ -433,7 +433,10 @@ func convertToIntersectionConstraintType[T any, R any](value any) R {
 	if reflect.TypeOf(value).Kind() == reflect.Pointer {
 		rv := reflect.ValueOf(value)
 		if !rv.IsNil() {
-			return any(rv.Elem().Interface()).(R) //nolint:unconvert // generic constraint conversion
+			// The pointee may be a nil interface (*any holding nil), which asserts to nothing.
+			if r, ok := rv.Elem().Interface().(R); ok {
+				return r
+			}
 		}
 		var zero R
 		return zero
